@@ -822,6 +822,9 @@ func fecTyped(s uint32, d, p int, body byte) []byte {
 	return pkt
 }
 
+// fecSwapRun: the next convergence cases run over a stream with adjacent swaps (see fecCaseConverge)
+var fecSwapRun bool
+
 type fecConvResult struct {
 	n         int  // packets of the run fed when (d,p,!tune) first held for good (-1: never)
 	bound     int
@@ -833,7 +836,15 @@ func fecCaseConverge(lg *fecLogger, r *vrng, rep *vreport, id int, d, p, dr, pr 
 	ss := uint32(d + p)
 	paws := uint32(0xffffffff) / ss * ss
 	bound := maxAutoTuneSamples + 2*(d+p)
-	total := bound + 3*int(ss) // the run, then the rest of the group and two more groups
+	runLen := bound
+	if fecSwapRun {
+		// a run in which two neighbouring packets of every group arrive swapped (nothing lost, nothing
+		// duplicated): FindPeriod sorts its samples, so the ratio is still found - within twice the bound
+		// of the in-order run (a swapped pair may straddle the edge of the sample window)
+		runLen = 2 * bound
+		lg.on = false
+	}
+	total := runLen + 3*int(ss) // the run, then the rest of the group and two more groups
 	// the run starts at an arbitrary id, the encoder at the group boundary before it
 	var base uint32
 	var startName string
@@ -951,11 +962,17 @@ func fecCaseConverge(lg *fecLogger, r *vrng, rep *vreport, id int, d, p, dr, pr 
 		groups = append(groups, g)
 		stream = append(stream, g.pkts...)
 	}
+	if fecSwapRun {
+		for k := off + 1; k+1 < off+runLen; k += int(ss) {
+			stream[k], stream[k+1] = stream[k+1], stream[k]
+		}
+		rep.Distribution["run:adjacent-swaps"]++
+	}
 	res := fecConvResult{n: -1, bound: bound}
 	fed := 0
 	okSince := -1
 	i := off
-	for ; i < off+bound; i++ {
+	for ; i < off+runLen; i++ {
 		rec, panicked := fecDecode(lg, dec, stream[i])
 		fed++
 		rep.Steps++
@@ -979,6 +996,12 @@ func fecCaseConverge(lg *fecLogger, r *vrng, rep *vreport, id int, d, p, dr, pr 
 	rep.Monitors["converges-within-258+2(d+p)"]++
 	key := fmt.Sprintf("converged-after:%s", fecBucket(okSince, bound))
 	rep.Distribution[key]++
+	if !res.converged && fecSwapRun {
+		fecViolate(rep, "C16/no-convergence-reordered", fmt.Sprintf("after a loss-free run of %d packets (twice 258+2(d+p)) in which two neighbouring packets of every group arrived swapped the decoder has %d/%d tune=%v instead of the sender's %d/%d",
+			runLen, dec.dataShards, dec.parityShards, dec.shouldTune, d, p),
+			map[string]any{"sender": []int{d, p}, "receiver": []int{dr, pr}, "first_seqid": first, "pre": preName, "seed": vSeed(), "case": id})
+		return
+	}
 	if !res.converged {
 		fecViolate(rep, "C16/no-convergence", fmt.Sprintf("after an uninterrupted run of 258+2(d+p)=%d packets the decoder has %d/%d tune=%v instead of the sender's %d/%d",
 			bound, dec.dataShards, dec.parityShards, dec.shouldTune, d, p),
@@ -1342,6 +1365,26 @@ func TestVerifC16(t *testing.T) {
 			fecCaseConverge(lg, r, rep, id, c.d, c.p, c.dr, c.pr, r.intn(5), r.intn(8)%6)
 			rep.Distribution["large-ratio-pair"]++
 		}
+		// (4) the run arrives with two neighbouring packets of every group swapped (monitors only)
+		fecSwapRun = true
+		swapped := []pair{{10, 3, 5, 2}, {10, 3, 1, 1}, {20, 4, 10, 3}, {3, 1, 1, 1}, {2, 2, 10, 3}, {128, 32, 10, 3}}
+		nsw := 12
+		if vThorough() {
+			nsw = 120
+		}
+		for k := 0; k < nsw; k++ {
+			nn, nr := 2+r.intn(12), 2+r.intn(12)
+			d, dr := 1+r.intn(nn-1), 1+r.intn(nr-1)
+			if d != dr || nn != nr {
+				swapped = append(swapped, pair{d, nn - d, dr, nr - dr})
+			}
+		}
+		for _, c := range swapped {
+			id++
+			lg.on = false
+			fecCaseConverge(lg, r, rep, id, c.d, c.p, c.dr, c.pr, r.pick(0, 1, 2), r.intn(8)%6)
+		}
+		fecSwapRun = false
 		lg.on = true
 		lg.printf("X\n")
 		rep.Extra["exhaustive_pairs_bound_d_plus_p"] = bound
